@@ -650,6 +650,15 @@ func (se *SpecEnv) evalCall(x *ECall) Value {
 		se.e.noteMapType(name, types.Typ[types.Int32], "elem")
 		m := se.e.heapGet(se.s, name, arr("Int", arr("Int", "Int")))
 		return Value{T: app("runes.str", sel2(m, sliceBase(sl.T)), add(sliceOff(sl.T), lo.T), sub(hi.T, lo.T)), Sort: "Str", GoT: types.Typ[types.String]}
+	case "roundAvg":
+		// roundAvg(s, n): the Go value int64(math.Round(float64(s) / float64(n))) as the executor models it
+		// (float64 arithmetic as exact real arithmetic, round half away from zero)
+		sv := se.eval(x.Args[0])
+		nv := se.eval(x.Args[1])
+		q := "(/ (to_real " + sv.T + ") (to_real " + nv.T + "))"
+		r := ite("(>= "+q+" 0.0)", "(to_real (to_int (+ "+q+" 0.5)))", "(- (to_real (to_int (+ (- "+q+") 0.5))))")
+		tr := ite("(>= "+r+" 0.0)", "(to_int "+r+")", "(- (to_int (- "+r+")))")
+		return Value{T: wrapInt(tr, types.Typ[types.Int64]), Sort: "Int", GoT: types.Typ[types.Int64]}
 	case "strTrim":
 		se.e.ctx.declFun("strim", []string{"Str"}, "Str")
 		return Value{T: app("strim", se.eval(x.Args[0]).T), Sort: "Str", GoT: types.Typ[types.String]}
